@@ -39,7 +39,7 @@ def observe(p, again=False):
     return out
 
 
-def cli_run(text):
+def cli_run(text, shared=None):
     """the programmatic command-line interface (scriptplan.cli.main.run_scriptplan, what 'plan report' calls): status and
     the files it writes"""
     import hashlib
@@ -52,8 +52,8 @@ def cli_run(text):
         fn = os.path.join(d, "p.tjp")
         with open(fn, "w") as fh:
             fh.write(text)
-        out = os.path.join(d, "out")
-        os.makedirs(out)
+        out = shared or os.path.join(d, "out")
+        os.makedirs(out, exist_ok=True)
         try:
             ok, _msg = run_scriptplan(fn, out)
         except BaseException as ex:  # noqa
@@ -68,8 +68,19 @@ def run(case):
     if case.get("cli"):
         err = io.StringIO()
         with contextlib.redirect_stderr(err), contextlib.redirect_stdout(io.StringIO()):
-            log = [cli_run(step["text"]) for step in case.get("history", [])]
-            return {"ok": True, "obs": {"cli": cli_run(case["text"])}, "history": [str(x.get("ok", x.get("raised"))) for x in log]}
+            shared = None
+            if case.get("shared_out"):
+                # every run of the history and the target write into ONE output directory (what a user who keeps
+                # running the tool in his project directory does)
+                import shutil
+                import tempfile
+                shared = tempfile.mkdtemp(prefix="whist_shared_")
+            try:
+                log = [cli_run(step["text"], shared) for step in case.get("history", [])]
+                return {"ok": True, "obs": {"cli": cli_run(case["text"], shared)}, "history": [str(x.get("ok", x.get("raised"))) for x in log]}
+            finally:
+                if shared:
+                    shutil.rmtree(shared, ignore_errors=True)
     err = io.StringIO()
     shared = ProjectFileParser() if case.get("reuse_parser") else None
     log = []
